@@ -6,3 +6,4 @@ CONSTANTS
   MaxOps = 3
   Depth = 3
   Misuse = FALSE
+  Race = FALSE
